@@ -111,6 +111,11 @@ def gen_cases(tier, seed):
     from .. import util_knots as K
     for d in K.variety_shapes(tier, pdims=(1, 2)):
         cases.append(dict(shape=d, variety=True, sparse=d['pdim'] == 2))
+    # ---- tensor-product circular-arc weights on Bezier and one-knot nets: mixed weight derivatives are exactly zero on midlines
+    for pu, pv in ((2, 2), (2, 3)):
+        for ku, kv_ in ((A.clamped_kv(pu, []), A.clamped_kv(pv, [])), (A.clamped_kv(pu, [(0.5, 1)]), A.clamped_kv(pv, []))):
+            cases.append(dict(shape=A.shape_desc([ku, kv_], [pu, pv], True, 3, 'coded', 'arc'), parts=['derivs'],
+                              params=[[0.0, 0.25, 0.5, 0.75, 1.0], [0.0, 0.25, 0.5, 1.0]]))
     # ---- surfaces
     degs = [1, 2, 3]
     for pu, pv in itertools.product(degs, degs):
